@@ -84,7 +84,20 @@ def decide_board(idx, seed0):
     b3 = rg.gen_rnd_board(*args)
     if b1 != b3:
         problems.append({"problem": "board changed after unrelated use of the random module"})
-    res["stats"]["repro_calls"] = 3
+    # a caller may edit the board it got (hand-made variants); the next request for the same seed must not see that
+    import copy as _copy
+    pristine = _copy.deepcopy(b1)
+    b4 = rg.gen_rnd_board(*args)
+    try:
+        b4[0][0][0] = 7
+        b4[1][0].append(99)
+        b4[2].append([1] * width)
+    except Exception:
+        pass
+    b5 = rg.gen_rnd_board(*args)
+    if (list(b5[0]), list(b5[1]), list(b5[2])) != (pristine[0], pristine[1], pristine[2]):
+        problems.append({"problem": "after the caller edited a returned board, the same seed and parameters give a different board"})
+    res["stats"]["repro_calls"] = 5
     if idx % 40 == 0:
         # fresh processes, different hash seeds
         outs = []
